@@ -270,6 +270,9 @@ pub struct Script {
     /// response headers and data emitted by the query form
     pub headers: Vec<&'static [u8]>,
     pub emit: Vec<Val>,
+    /// a handler that does not propagate a failed parameter request other than -109 (`if let Ok(..)`, defaulting):
+    /// it stops asking and completes normally; a lexical error in its unit must still fail the message
+    pub tolerant: bool,
     /// refuse one of the forms with -113 like the library's default stubs do
     pub no_query: bool,
     pub no_event: bool,
@@ -287,6 +290,9 @@ impl Script {
                     }
                     Err(e) => {
                         dev.log.push(Ev::PullErr(e.get_code()));
+                        if self.tolerant && e.get_code() != -109 {
+                            return self.fail.map_or(Ok(()), Err);
+                        }
                         return Err(e);
                     }
                 }
@@ -295,6 +301,9 @@ impl Script {
                     Ok(t) => t,
                     Err(e) => {
                         dev.log.push(Ev::PullErr(e.get_code()));
+                        if self.tolerant && e.get_code() != -109 {
+                            return self.fail.map_or(Ok(()), Err);
+                        }
                         return Err(e);
                     }
                 }
@@ -316,6 +325,9 @@ impl Script {
                     Ok(None) => break,
                     Err(e) => {
                         dev.log.push(Ev::PullErr(e.get_code()));
+                        if self.tolerant && e.get_code() != -109 {
+                            break;
+                        }
                         return Err(e);
                     }
                 }
